@@ -201,3 +201,211 @@ func checkSessionDeferOrder(c *Ctx) {
 	}
 	c.check(ok && n >= 1, rule, "_watchSession.run/conn-used-only-after-err-check", c.P.fnPos(fn), "", "_watchSession.run uses the watch connection (conn.Stop / conn.ResultChan) on a path where the connect error has not been ruled out: a failed Watch returns a nil interface and the session goroutine panics, which makes a watch connect error fatal for the whole process")
 }
+
+// ---------- gaps closed after the mutation audit ----------
+
+// checkErrPropagation: fn has a call C returning (x, error); on the path where
+// its error is non-nil the function returns a non-nil error derived from it
+// (and a nil/zero first result), and the success path is taken only when it is nil.
+func checkErrPropagation(c *Ctx, rule, rel, fname, calleeSuffix string) {
+	fn := c.mustFunc(rel, fname)
+	if fn == nil {
+		return
+	}
+	label := fname
+	if rel != "" {
+		label = rel + ":" + fname
+	}
+	ok, detail := true, ""
+	sawErr, sawOK := false, false
+	for _, pa := range pathsOf(c, fn) {
+		var call *Term
+		for _, e := range pa.Effects {
+			name := ""
+			if e.Fn != nil {
+				name = fnName(e.Fn)
+			} else if e.Method != "" {
+				name = e.Method
+			}
+			if (e.Kind == "call" || e.Kind == "invoke") && strings.HasSuffix(name, calleeSuffix) && call == nil {
+				call = e.Res
+			}
+		}
+		if call == nil {
+			continue
+		}
+		isErrOf := func(x *Term) bool {
+			if x.K == "extract" && x.S == "1" && sameTerm(x.A[0], call) {
+				return true
+			}
+			// single-result error calls: result.Error()
+			if x.K == "invoke" && x.S == "Error" && sameTerm(x.A[0], call) {
+				return true
+			}
+			return x.K == "call" && strings.HasSuffix(x.S, ".Error") && len(x.A) == 1 && sameTerm(x.A[0], call)
+		}
+		errNil, known := false, false
+		for _, l := range pa.Lits {
+			if x, okk := isNilTest(l.T); okk && isErrOf(x) {
+				errNil, known = l.Val, true
+			}
+		}
+		if !known || pa.End.Kind != "return" && pa.End.Kind != "cycle" && pa.End.Kind != "stop" {
+			continue
+		}
+		if pa.End.Kind != "return" {
+			if !errNil {
+				ok, detail = false, "continues its work although "+calleeSuffix+" failed"
+			}
+			sawOK = sawOK || errNil
+			continue
+		}
+		res := pa.End.Results
+		last := res[len(res)-1]
+		if !errNil {
+			sawErr = true
+			if last.IsNil() || !termContains(last, isErrOf) {
+				ok, detail = false, "the error of "+calleeSuffix+" is not returned (derived) on its failure path"
+			}
+		} else {
+			sawOK = true
+			if termContains(last, isErrOf) {
+				ok, detail = false, "the success path returns the (nil) error of "+calleeSuffix+" as its failure"
+			}
+		}
+	}
+	if !sawErr || !sawOK {
+		ok, detail = false, fmt.Sprintf("no branch on the error of %s (failure path seen=%v, success path seen=%v)", calleeSuffix, sawErr, sawOK)
+	}
+	c.check(ok, rule, label+"/propagates-error-of-"+calleeSuffix, c.P.fnPos(fn), "", label+": "+detail)
+}
+
+// checkBuilderFlows: every builder setter stores its argument; Client() feeds
+// both the lister and the watcher builder; Create() uses the configured values.
+func checkBuilderFlows(c *Ctx) {
+	rule := "T-FLOW(builder)"
+	for _, k := range [][2]string{{"builder.Context", "ctx"}, {"builder.Log", "log"}, {"builder.Filter", "filter"}, {"listerBuilder.Client", "client"}, {"watcherBuilder.Client", "client"}, {"listerBuilder.RefreshPeriod", "period"}} {
+		fn := c.mustFunc("", k[0])
+		if fn == nil {
+			continue
+		}
+		ok := false
+		for _, pa := range pathsOf(c, fn) {
+			for _, e := range pa.Effects {
+				if e.Kind == "store" && e.Addr.K == "faddr" && e.Addr.S == k[1] && isParamT(e.Val, fn.Params[1].Name()) {
+					ok = true
+				}
+			}
+		}
+		c.check(ok, rule, k[0]+"/stores-"+k[1], c.P.fnPos(fn), "", k[0]+" does not store its argument in ."+k[1]+": the configured value would be silently ignored")
+	}
+	if fn := c.mustFunc("", "builder.Client"); fn != nil {
+		lb, wb := false, false
+		for _, pa := range pathsOf(c, fn) {
+			for _, e := range pa.Effects {
+				if (e.Kind == "call" || e.Kind == "invoke") && len(e.Args) >= 1 {
+					recv := e.Recv
+					if e.Kind == "call" && e.Fn != nil {
+						recv = e.Args[0]
+					}
+					arg := e.Args[len(e.Args)-1]
+					if recv != nil && isParamT(arg, fn.Params[1].Name()) {
+						if p, okp := recv.FieldPath(); okp {
+							if strings.HasSuffix(p, ".lb") {
+								lb = true
+							}
+							if strings.HasSuffix(p, ".wb") {
+								wb = true
+							}
+						}
+					}
+				}
+			}
+		}
+		c.check(lb && wb, rule, "builder.Client/feeds-lister-and-watcher", c.P.fnPos(fn), "", "builder.Client does not hand the client to both the lister and the watcher builder")
+	}
+	if fn := c.mustFunc("", "builder.Create"); fn != nil {
+		uses := map[string]bool{}
+		for _, pa := range pathsOf(c, fn) {
+			for _, e := range pa.Effects {
+				if e.Kind != "call" || e.Fn == nil {
+					continue
+				}
+				for _, a := range e.Args {
+					if p, okp := a.FieldPath(); okp {
+						uses[fnName(e.Fn)+"<-"+p[strings.Index(p, ".")+1:]] = true
+					}
+				}
+				if fnName(e.Fn) == "newCache" || fnName(e.Fn) == "newLister" || fnName(e.Fn) == "newWatcher" {
+					if p, okp := e.Args[0].FieldPath(); okp {
+						uses[fnName(e.Fn)+"<-ctx:"+p[strings.Index(p, ".")+1:]] = true
+					}
+				}
+			}
+		}
+		for _, w := range []string{"newCache<-filter", "newLister<-lb.period", "newLister<-lb.client", "newWatcher<-wb.client", "newCache<-ctx:ctx", "newLister<-ctx:ctx", "newWatcher<-ctx:ctx"} {
+			c.check(uses[w], rule, "builder.Create/"+w, c.P.fnPos(fn), "", "builder.Create does not pass the configured value: "+w)
+		}
+		// the controller watches the builder's context
+		wc := false
+		for _, b := range fn.Blocks {
+			for _, in := range b.Instrs {
+				if g, ok := in.(*ssa.Go); ok && g.Call.IsInvoke() && g.Call.Method.Name() == "WatchContext" {
+					wc = true
+				}
+			}
+		}
+		c.check(wc, rule, "builder.Create/controller-watches-context", c.P.fnPos(fn), "", "the controller's lifecycle does not watch the configured context")
+	}
+}
+
+// checkRunStartedOnce: every actor run function is started by exactly one `go`
+// statement and never called synchronously.
+func checkRunStartedOnce(c *Ctx, runs []*runInfo) {
+	rule := "T-GO(run-started-once)"
+	fns := []*ssa.Function{}
+	for _, r := range runs {
+		if r.fn.Parent() == nil {
+			fns = append(fns, r.fn)
+		}
+	}
+	if f := c.P.Func("", "_ticker.run"); f != nil {
+		fns = append(fns, f)
+	}
+	for _, f := range fns {
+		gos, others := 0, 0
+		for _, cs := range c.P.callersOf(f) {
+			if cs.Kind == "go" {
+				gos++
+			} else {
+				others++
+			}
+		}
+		c.check(gos == 1 && others == 0, rule, fnName(f)+"/one-go-site", c.P.fnPos(f), "", fmt.Sprintf("%s is started by %d go statements and used %d other ways (want exactly one `go`): a synchronous call never returns to the constructor's caller, two goroutines break single ownership", fnName(f), gos, others))
+	}
+}
+
+// checkCloseOwners: the Close/stop methods that own a lifecycle request its shutdown exactly once.
+func checkCloseOwners(c *Ctx) {
+	rule := "T-WHO(Close)"
+	for _, name := range []string{"_subscription.Close", "controller.Close", "_watchSession.stop"} {
+		fn := c.mustFunc("", name)
+		if fn == nil {
+			continue
+		}
+		n := 0
+		for _, pa := range pathsOf(c, fn) {
+			k := 0
+			for _, e := range pa.Effects {
+				if e.Kind == "invoke" && (e.Method == "Shutdown" || e.Method == "ShutdownAsync") && e.Recv.IsRecvField("lc") {
+					k++
+				}
+			}
+			if k != 1 {
+				n = -100
+			}
+			n++
+		}
+		c.check(n >= 1, rule, name+"/requests-own-shutdown-once", c.P.fnPos(fn), "", name+" does not request the shutdown of its own lifecycle exactly once on every path: closing it would not stop it")
+	}
+}
